@@ -16,8 +16,26 @@ def strip(src, keep_strings=False):
     preserving length and newlines so offsets stay valid."""
     out = []
     i, n = 0, len(src)
+    cfg_end = -1          # inside #[cfg(...)] / #![cfg(...)] string literals are KEPT: target_os = "linux" decides what is compiled
     while i < n:
         c = src[i]
+        if c == '#' and i > cfg_end:
+            m = re.match(r'#!?\[\s*cfg\s*\(', src[i:i + 24])
+            if m:
+                depth, j = 0, i + src[i:].index('[')
+                while j < n:
+                    if src[j] == '[':
+                        depth += 1
+                    elif src[j] == ']':
+                        depth -= 1
+                        if depth == 0:
+                            break
+                    elif src[j] == '"':
+                        j += 1
+                        while j < n and src[j] != '"':
+                            j += 2 if src[j] == '\\' else 1
+                    j += 1
+                cfg_end = j
         if src.startswith('//', i):
             j = src.find('\n', i)
             j = n if j < 0 else j
@@ -50,7 +68,7 @@ def strip(src, keep_strings=False):
                     j += 2 if src[j] == '\\' else 1
                 end = j
                 j += 1
-            if keep_strings:
+            if keep_strings or i < cfg_end:
                 out.append(src[i:j])
             else:
                 out.append(src[i:start] + ''.join(ch if ch == '\n' else ' ' for ch in src[start:end]) + src[end:j])
